@@ -1,9 +1,9 @@
 //! C10 / C04 — path editing has list semantics and touches nothing but the
 //! path; the handle keeps viewing exactly the path (invariant I).
 use crate::oracle::{
-    comps_of, list_pop, lists_equal_mod_shield, split_path, split_ref, symbolic_step, Out, SegList, R,
+    comps_of, list_pop, plain_rendering_ok, rendering_eq_k, shield_permitted, split_path, split_ref, strip_shield, symbolic_step, SegList, R,
 };
-use crate::sym::{any_u8, as_str, assume, bytes_eq, vec_of, Text};
+use crate::sym::{any_u8, as_str, assume, bytes_eq, vec_cap, vec_of, Text};
 use crate::{cover, tables};
 use iref_core::{iri, uri, IriRefBuf, UriBuf, UriRefBuf};
 use std::mem::forget;
@@ -14,26 +14,52 @@ pub const CLEAR: u8 = 2;
 pub const SYMBOLIC_PUSH: u8 = 3;
 pub const SYMBOLIC_APPEND: u8 = 4;
 
-/// Source text of the expected list: old path ++ argument ++ "..".
+/// Source text of the expected list, at CONCRETE offsets: the old path in
+/// `0..N`, the argument in `N..N+M`, `..` in `N+M..N+M+2` (every write below is
+/// at a concrete index; only the reads of the inputs are symbolic).
 struct Src {
-    text: Out,
+    text: [u8; 24],
     arg: R,
     dotdot: R,
 }
 
-fn src_of(oldp: &[u8], arg: &[u8]) -> Src {
-    let mut text = Out::new();
-    text.extend(oldp);
-    let a0 = text.len;
-    text.extend(arg);
-    let a1 = text.len;
-    text.extend(b"..");
-    Src { text, arg: (a0, a1), dotdot: (a1, a1 + 2) }
+fn src_of<const N: usize, const M: usize>(oldp: &[u8], arg: &[u8]) -> Src {
+    assert!(oldp.len() <= N && arg.len() <= M && N + M + 2 <= 24);
+    let mut text = [0u8; 24];
+    let mut i = 0;
+    while i < N {
+        if i < oldp.len() {
+            text[i] = oldp[i];
+        }
+        i += 1;
+    }
+    let mut j = 0;
+    while j < M {
+        if j < arg.len() {
+            text[N + j] = arg[j];
+        }
+        j += 1;
+    }
+    text[N + M] = b'.';
+    text[N + M + 1] = b'.';
+    Src { text, arg: (N, N + arg.len()), dotdot: (N + M, N + M + 2) }
+}
+
+/// The path `got` (a slice of the spliced buffer, or the whole stand-alone
+/// buffer) is `prefix ++ rendering(want) ++ suffix`, the rendering being plain
+/// where that reads back faithfully, with or without a literal leading `.`
+/// that only shields, or behind the `.` shield where permitted.
+fn is_rendering(out: &[u8], prefix: &[u8], s: &Src, want: &SegList, absolute: bool, suffix: &[u8], k: usize, maxseg: usize) -> bool {
+    let src: &[u8] = &s.text;
+    let stripped = strip_shield(src, want);
+    (plain_rendering_ok(src, want, absolute) && rendering_eq_k(out, prefix, src, want, absolute, false, suffix, k, maxseg))
+        || (plain_rendering_ok(src, &stripped, absolute) && rendering_eq_k(out, prefix, src, &stripped, absolute, false, suffix, k, maxseg))
+        || (shield_permitted(src, &stripped) && rendering_eq_k(out, prefix, src, &stripped, absolute, true, suffix, k, maxseg))
 }
 
 /// Expected segment sequence after `op` (list semantics, DESIGN C10).
 fn expected_list(op: u8, s: &Src, oldp_len: usize, absolute: bool) -> SegList {
-    let src = s.text.bytes();
+    let src: &[u8] = &s.text;
     let mut l = SegList::of(&split_path(&src[..oldp_len]));
     match op {
         PUSH => l.push(s.arg),
@@ -78,7 +104,7 @@ macro_rules! apply_op {
 }
 
 /// One edit through a fresh handle on a path embedded in a URI reference.
-fn embedded_uri<const OP: u8, const N: usize, const M: usize>() {
+fn embedded_uri<const OP: u8, const N: usize, const M: usize, const K: usize>() {
     let t = Text::<N>::any();
     let b = t.bytes();
     assume(tables::t_uri_uriref_valid_k(b, N));
@@ -95,10 +121,10 @@ fn embedded_uri<const OP: u8, const N: usize, const M: usize>() {
     let cb = comps_of(b, &before);
     // a path that follows an authority is absolute even when its text is empty
     let absolute = cb.path.first() == Some(&b'/') || cb.authority.is_some();
-    let s = src_of(cb.path, arg);
+    let s = src_of::<N, M>(cb.path, arg);
     let want = expected_list(OP, &s, cb.path.len(), absolute);
 
-    let mut x = unsafe { UriRefBuf::new_unchecked(vec_of(b)) };
+    let mut x = unsafe { UriRefBuf::new_unchecked(vec_cap::<K>(b)) };
     let (hp, hl) = {
         let mut pm = x.path_mut();
         let seg = unsafe { uri::Segment::new_unchecked(arg) };
@@ -108,171 +134,136 @@ fn embedded_uri<const OP: u8, const N: usize, const M: usize>() {
         (v.as_bytes().as_ptr(), v.as_bytes().len())
     };
     let out = x.as_bytes();
-    assert!(tables::t_uri_uriref_valid_k(out, N + M + 3), "C04: the buffer is no longer a valid URI reference after the path edit");
-    let after = split_ref(out);
-    let ca = comps_of(out, &after);
-    macro_rules! same_opt {
-        ($p:expr, $q:expr) => {
-            match ($p, $q) {
-                (None, None) => true,
-                (Some(u), Some(v)) => bytes_eq(u, v),
-                _ => false,
-            }
-        };
-    }
-    assert!(same_opt!(cb.scheme, ca.scheme), "C10: the path edit changed the scheme");
-    assert!(same_opt!(cb.authority, ca.authority), "C10: the path edit changed the authority");
-    assert!(same_opt!(cb.query, ca.query), "C10: the path edit changed the query");
-    assert!(same_opt!(cb.fragment, ca.fragment), "C10: the path edit changed the fragment");
-    let got = SegList::of(&split_path(ca.path));
-    assert!(lists_equal_mod_shield(s.text.bytes(), &want, ca.path, &got), "C10: the segment sequence after the edit is not the expected one");
-    let abs_after = ca.path.first() == Some(&b'/');
-    assert!((ca.path.is_empty() && cb.path.is_empty()) || abs_after == absolute, "C10: the path did not stay absolute/relative as it was");
+    // scheme, authority, query and fragment byte-identical; the path is the
+    // expected sequence; absolute stays absolute (and a path that follows an
+    // authority becomes absolute as soon as it has a segment)
+    let render_abs = cb.path.first() == Some(&b'/') || (cb.authority.is_some() && want.n > 0);
+    assert!(
+        is_rendering(out, &b[..before.path.0], &s, &want, render_abs, &b[before.path.1..], K, N + 2),
+        "C10: after the edit the text is not the old one with its path replaced by the expected segment sequence"
+    );
+    assert!(tables::t_uri_uriref_valid_k(out, K), "C04: the buffer is no longer a valid URI reference after the path edit");
     // invariant I: the handle viewed exactly the (new) path of the buffer
     let fresh = x.path().as_bytes();
     assert!(hp == fresh.as_ptr() && hl == fresh.len(), "C04/C10: the handle does not view exactly the path after the edit");
     cover!(cb.authority.is_some() && cb.path.is_empty(), "empty path after an authority");
     if OP == PUSH || OP == SYMBOLIC_PUSH || OP == SYMBOLIC_APPEND {
-        cover!(cb.scheme.is_none() && cb.authority.is_none() && got.n > want.n, "a shield was inserted");
+        cover!(cb.scheme.is_none() && cb.authority.is_none() && cb.path.is_empty() && out.len() == arg.len() + 2, "a shield was inserted in front of the pushed segment");
     }
     if OP == POP {
-        cover!(got.n > want.n, "pop left the shielded single empty segment (/./)");
-        cover!(got.n == want.n && want.n > 0 && out.len() > b.len(), "pop appended '..'");
+        cover!(out.len() > b.len(), "pop appended '..'");
+        cover!(out.len() + 2 <= b.len(), "pop removed a segment of at least one byte");
     }
     cover!(cb.query.is_some() && out.len() != b.len(), "text after the path was moved");
     forget(x);
 }
 
-// @h prop=C10,C04 tier=quick kind=check timeout=2400 mem=16 bound="UriRefBuf text <= 4 bytes, segment <= 2 bytes" encodes="RiRefBufImpl::path_mut;PathMutImpl::{new,push,first_segment_offset};utils::{replace,allocate_range};Deref for PathMut"
+// @h prop=C10,C04 tier=quick kind=check timeout=2400 mem=12 bound="UriRefBuf text <= 4 bytes, segment <= 2 bytes" encodes="RiRefBufImpl::path_mut;PathMutImpl::{new,push,first_segment_offset};utils::{replace,allocate_range};Deref for PathMut"
 #[cfg_attr(kani, kani::proof)]
-#[cfg_attr(kani, kani::unwind(11))]
+#[cfg_attr(kani, kani::unwind(9))]
 #[cfg_attr(kani, kani::stub(std::vec::Vec::resize, crate::stubs::vec_resize))]
 pub fn c10_embedded_push_n4() {
-    embedded_uri::<PUSH, 4, 2>()
+    embedded_uri::<PUSH, 4, 2, 8>()
 }
 
 // @h prop=C10,C04 tier=thorough kind=check timeout=2400 mem=16 bound="UriRefBuf text <= 5 bytes, segment <= 2 bytes" encodes="RiRefBufImpl::path_mut;PathMutImpl::{new,push,first_segment_offset};utils::{replace,allocate_range};Deref for PathMut"
 #[cfg_attr(kani, kani::proof)]
-#[cfg_attr(kani, kani::unwind(12))]
+#[cfg_attr(kani, kani::unwind(10))]
 #[cfg_attr(kani, kani::stub(std::vec::Vec::resize, crate::stubs::vec_resize))]
 pub fn c10_embedded_push_n5() {
-    embedded_uri::<PUSH, 5, 2>()
+    embedded_uri::<PUSH, 5, 2, 9>()
 }
 
 // @h prop=C10,C04 tier=thorough kind=check timeout=2400 mem=16 bound="UriRefBuf text <= 6 bytes, segment <= 2 bytes" encodes="RiRefBufImpl::path_mut;PathMutImpl::{new,push,first_segment_offset};utils::{replace,allocate_range};Deref for PathMut"
 #[cfg_attr(kani, kani::proof)]
-#[cfg_attr(kani, kani::unwind(13))]
+#[cfg_attr(kani, kani::unwind(11))]
 #[cfg_attr(kani, kani::stub(std::vec::Vec::resize, crate::stubs::vec_resize))]
 pub fn c10_embedded_push_n6() {
-    embedded_uri::<PUSH, 6, 2>()
+    embedded_uri::<PUSH, 6, 2, 10>()
 }
 
-// @h prop=C10,C04 tier=quick kind=check timeout=2400 mem=16 bound="UriRefBuf text <= 4 bytes" encodes="PathMutImpl::{pop,push};PathImpl::last;utils::replace"
+// @h prop=C10,C04 tier=quick kind=check timeout=2400 mem=12 bound="UriRefBuf text <= 4 bytes" encodes="PathMutImpl::{pop,push};PathImpl::last;utils::replace"
 #[cfg_attr(kani, kani::proof)]
-#[cfg_attr(kani, kani::unwind(9))]
+#[cfg_attr(kani, kani::unwind(8))]
 #[cfg_attr(kani, kani::stub(std::vec::Vec::resize, crate::stubs::vec_resize))]
 pub fn c10_embedded_pop_n4() {
-    embedded_uri::<POP, 4, 0>()
+    embedded_uri::<POP, 4, 0, 7>()
 }
 
 // @h prop=C10,C04 tier=thorough kind=check timeout=2400 mem=16 bound="UriRefBuf text <= 5 bytes" encodes="PathMutImpl::{pop,push};PathImpl::last;utils::replace"
 #[cfg_attr(kani, kani::proof)]
-#[cfg_attr(kani, kani::unwind(12))]
+#[cfg_attr(kani, kani::unwind(9))]
 #[cfg_attr(kani, kani::stub(std::vec::Vec::resize, crate::stubs::vec_resize))]
 pub fn c10_embedded_pop_n5() {
-    embedded_uri::<POP, 5, 0>()
+    embedded_uri::<POP, 5, 0, 8>()
 }
 
 // @h prop=C10,C04 tier=thorough kind=check timeout=2400 mem=16 bound="UriRefBuf text <= 6 bytes" encodes="PathMutImpl::{pop,push};PathImpl::last;utils::replace"
 #[cfg_attr(kani, kani::proof)]
-#[cfg_attr(kani, kani::unwind(13))]
-#[cfg_attr(kani, kani::stub(std::vec::Vec::resize, crate::stubs::vec_resize))]
-pub fn c10_embedded_pop_n6() {
-    embedded_uri::<POP, 6, 0>()
-}
-
-// @h prop=C10,C04:thorough tier=quick kind=check timeout=2400 mem=16 bound="UriRefBuf text <= 5 bytes" encodes="PathMutImpl::clear;utils::replace"
-#[cfg_attr(kani, kani::proof)]
 #[cfg_attr(kani, kani::unwind(10))]
 #[cfg_attr(kani, kani::stub(std::vec::Vec::resize, crate::stubs::vec_resize))]
+pub fn c10_embedded_pop_n6() {
+    embedded_uri::<POP, 6, 0, 9>()
+}
+
+// @h prop=C10,C04:thorough tier=quick kind=check timeout=2400 mem=12 bound="UriRefBuf text <= 5 bytes" encodes="PathMutImpl::clear;utils::replace"
+#[cfg_attr(kani, kani::proof)]
+#[cfg_attr(kani, kani::unwind(8))]
+#[cfg_attr(kani, kani::stub(std::vec::Vec::resize, crate::stubs::vec_resize))]
 pub fn c10_embedded_clear_n5() {
-    embedded_uri::<CLEAR, 5, 0>()
+    embedded_uri::<CLEAR, 5, 0, 6>()
 }
 
 // @h prop=C10,C04 tier=thorough kind=check timeout=2400 mem=16 bound="UriRefBuf text <= 6 bytes" encodes="PathMutImpl::clear;utils::replace"
 #[cfg_attr(kani, kani::proof)]
-#[cfg_attr(kani, kani::unwind(12))]
+#[cfg_attr(kani, kani::unwind(9))]
 #[cfg_attr(kani, kani::stub(std::vec::Vec::resize, crate::stubs::vec_resize))]
 pub fn c10_embedded_clear_n6() {
-    embedded_uri::<CLEAR, 6, 0>()
+    embedded_uri::<CLEAR, 6, 0, 7>()
 }
 
 // @h prop=C10,C04 tier=thorough kind=check timeout=2400 mem=16 bound="UriRefBuf text <= 7 bytes" encodes="PathMutImpl::clear;utils::replace"
 #[cfg_attr(kani, kani::proof)]
-#[cfg_attr(kani, kani::unwind(13))]
+#[cfg_attr(kani, kani::unwind(10))]
 #[cfg_attr(kani, kani::stub(std::vec::Vec::resize, crate::stubs::vec_resize))]
 pub fn c10_embedded_clear_n7() {
-    embedded_uri::<CLEAR, 7, 0>()
+    embedded_uri::<CLEAR, 7, 0, 8>()
 }
 
-// @h prop=C10,C04:thorough tier=quick kind=check timeout=3000 mem=26 bound="UriRefBuf text <= 4 bytes, segment <= 2 bytes (incl. '.', '..')" encodes="uri::PathMut::symbolic_push;PathMutImpl::{symbolic_push,pop,push}"
+// @h prop=C10,C04:thorough tier=quick kind=check timeout=2400 mem=12 bound="UriRefBuf text <= 4 bytes, segment <= 2 bytes (incl. '.', '..')" encodes="uri::PathMut::symbolic_push;PathMutImpl::{symbolic_push,pop,push}"
 #[cfg_attr(kani, kani::proof)]
-#[cfg_attr(kani, kani::unwind(11))]
+#[cfg_attr(kani, kani::unwind(10))]
 #[cfg_attr(kani, kani::stub(std::vec::Vec::resize, crate::stubs::vec_resize))]
 pub fn c10_embedded_symbolic_push_n4() {
-    embedded_uri::<SYMBOLIC_PUSH, 4, 2>()
+    embedded_uri::<SYMBOLIC_PUSH, 4, 2, 9>()
 }
 
 // @h prop=C10,C04 tier=thorough kind=check timeout=3000 mem=26 bound="UriRefBuf text <= 5 bytes, segment <= 2 bytes (incl. '.', '..')" encodes="uri::PathMut::symbolic_push;PathMutImpl::{symbolic_push,pop,push}"
 #[cfg_attr(kani, kani::proof)]
-#[cfg_attr(kani, kani::unwind(12))]
+#[cfg_attr(kani, kani::unwind(11))]
 #[cfg_attr(kani, kani::stub(std::vec::Vec::resize, crate::stubs::vec_resize))]
 pub fn c10_embedded_symbolic_push_n5() {
-    embedded_uri::<SYMBOLIC_PUSH, 5, 2>()
+    embedded_uri::<SYMBOLIC_PUSH, 5, 2, 10>()
 }
 
 // @h prop=C10,C04 tier=thorough kind=check timeout=5400 mem=30 bound="UriRefBuf text <= 6 bytes, segment <= 2 bytes (incl. '.', '..')" encodes="uri::PathMut::symbolic_push;PathMutImpl::{symbolic_push,pop,push}"
 #[cfg_attr(kani, kani::proof)]
-#[cfg_attr(kani, kani::unwind(13))]
+#[cfg_attr(kani, kani::unwind(12))]
 #[cfg_attr(kani, kani::stub(std::vec::Vec::resize, crate::stubs::vec_resize))]
 pub fn c10_embedded_symbolic_push_n6() {
-    embedded_uri::<SYMBOLIC_PUSH, 6, 2>()
+    embedded_uri::<SYMBOLIC_PUSH, 6, 2, 11>()
 }
 
 // @h prop=C10,C04 tier=thorough kind=check timeout=3000 mem=20 bound="UriRefBuf text <= 5 bytes, appended path <= 4 bytes" encodes="PathMutImpl::symbolic_append over SegmentsImpl;symbolic_push;pop;push"
 #[cfg_attr(kani, kani::proof)]
-#[cfg_attr(kani, kani::unwind(14))]
+#[cfg_attr(kani, kani::unwind(13))]
 #[cfg_attr(kani, kani::stub(std::vec::Vec::resize, crate::stubs::vec_resize))]
 pub fn c10_embedded_symbolic_append_n5() {
-    embedded_uri::<SYMBOLIC_APPEND, 5, 4>()
-}
-
-// @h prop=C10,C04 tier=thorough kind=check timeout=3000 mem=20 bound="UriRefBuf text <= 8 bytes, segment <= 3 bytes" encodes="same as c10_embedded_push_n6"
-#[cfg_attr(kani, kani::proof)]
-#[cfg_attr(kani, kani::unwind(16))]
-#[cfg_attr(kani, kani::stub(std::vec::Vec::resize, crate::stubs::vec_resize))]
-pub fn c10_embedded_push_n8() {
-    embedded_uri::<PUSH, 8, 3>()
-}
-
-// @h prop=C10,C04 tier=thorough kind=check timeout=3000 mem=20 bound="UriRefBuf text <= 8 bytes" encodes="same as c10_embedded_pop_n6"
-#[cfg_attr(kani, kani::proof)]
-#[cfg_attr(kani, kani::unwind(16))]
-#[cfg_attr(kani, kani::stub(std::vec::Vec::resize, crate::stubs::vec_resize))]
-pub fn c10_embedded_pop_n8() {
-    embedded_uri::<POP, 8, 0>()
-}
-
-// @h prop=C10,C04 tier=thorough kind=check timeout=3000 mem=20 bound="UriRefBuf text <= 8 bytes, segment <= 2 bytes" encodes="same as c10_embedded_symbolic_push_n6"
-#[cfg_attr(kani, kani::proof)]
-#[cfg_attr(kani, kani::unwind(16))]
-#[cfg_attr(kani, kani::stub(std::vec::Vec::resize, crate::stubs::vec_resize))]
-pub fn c10_embedded_symbolic_push_n8() {
-    embedded_uri::<SYMBOLIC_PUSH, 8, 2>()
+    embedded_uri::<SYMBOLIC_APPEND, 5, 4, 12>()
 }
 
 /// The same edits on a stand-alone path buffer.
-fn standalone_uri<const OP: u8, const N: usize, const M: usize>() {
+fn standalone_uri<const OP: u8, const N: usize, const M: usize, const K: usize>() {
     let t = Text::<N>::any();
     let b = t.bytes();
     assume(uri::Path::new(b).is_ok());
@@ -286,83 +277,80 @@ fn standalone_uri<const OP: u8, const N: usize, const M: usize>() {
         assume(arg.is_empty());
     }
     let absolute = b.first() == Some(&b'/');
-    let s = src_of(b, arg);
+    let s = src_of::<N, M>(b, arg);
     let want = expected_list(OP, &s, b.len(), absolute);
-    let mut x = unsafe { uri::PathBuf::new_unchecked(vec_of(b)) };
+    let mut x = unsafe { uri::PathBuf::new_unchecked(vec_cap::<K>(b)) };
     let seg = unsafe { uri::Segment::new_unchecked(arg) };
     let pth = unsafe { uri::Path::new_unchecked(arg) };
     apply_op!(x, OP, seg, pth);
     let out = x.as_bytes();
-    assert!(tables::t_uri_path_valid_k(out, N + M + 3), "C04: the stand-alone path buffer is no longer a valid path");
-    let got = SegList::of(&split_path(out));
-    assert!(lists_equal_mod_shield(s.text.bytes(), &want, out, &got), "C10: the segment sequence after the edit is not the expected one (stand-alone path)");
-    let abs_after = out.first() == Some(&b'/');
-    assert!(abs_after == absolute, "C10: the stand-alone path did not stay absolute/relative as it was");
+    assert!(is_rendering(out, b"", &s, &want, absolute, b"", K, N + 2), "C10: the stand-alone path is not the expected segment sequence after the edit");
+    assert!(tables::t_uri_path_valid_k(out, K), "C04: the stand-alone path buffer is no longer a valid path");
     if OP == PUSH || OP == SYMBOLIC_PUSH || OP == SYMBOLIC_APPEND {
-        cover!(got.n > want.n, "a shield was inserted");
+        cover!(b.is_empty() && out.len() == arg.len() + 2, "a shield was inserted");
         cover!(want.n >= 3, "three or more segments");
     }
     if OP == POP {
-        cover!(got.n > want.n, "pop left the shielded single empty segment (/./)");
+        cover!(out.len() > b.len(), "pop appended '..'");
         cover!(want.n >= 2, "two or more segments left");
     }
     forget(x);
 }
 
-// @h prop=C10,C04:thorough tier=quick kind=check timeout=2400 mem=16 bound="uri::PathBuf text <= 4 bytes, segment <= 2 bytes" encodes="uri::PathBuf::push;PathMutImpl::{from_path,push}"
+// @h prop=C10,C04:thorough tier=quick kind=check timeout=2400 mem=12 bound="uri::PathBuf text <= 4 bytes, segment <= 2 bytes" encodes="uri::PathBuf::push;PathMutImpl::{from_path,push}"
 #[cfg_attr(kani, kani::proof)]
-#[cfg_attr(kani, kani::unwind(11))]
+#[cfg_attr(kani, kani::unwind(9))]
 #[cfg_attr(kani, kani::stub(std::vec::Vec::resize, crate::stubs::vec_resize))]
 pub fn c10_pathbuf_push_n4() {
-    standalone_uri::<PUSH, 4, 2>()
+    standalone_uri::<PUSH, 4, 2, 8>()
 }
 
 // @h prop=C10,C04 tier=thorough kind=check timeout=2400 mem=16 bound="uri::PathBuf text <= 5 bytes, segment <= 2 bytes" encodes="uri::PathBuf::push;PathMutImpl::{from_path,push}"
 #[cfg_attr(kani, kani::proof)]
-#[cfg_attr(kani, kani::unwind(12))]
+#[cfg_attr(kani, kani::unwind(10))]
 #[cfg_attr(kani, kani::stub(std::vec::Vec::resize, crate::stubs::vec_resize))]
 pub fn c10_pathbuf_push_n5() {
-    standalone_uri::<PUSH, 5, 2>()
+    standalone_uri::<PUSH, 5, 2, 9>()
 }
 
 // @h prop=C10,C04 tier=thorough kind=check timeout=2400 mem=16 bound="uri::PathBuf text <= 6 bytes, segment <= 2 bytes" encodes="uri::PathBuf::push;PathMutImpl::{from_path,push}"
 #[cfg_attr(kani, kani::proof)]
-#[cfg_attr(kani, kani::unwind(13))]
+#[cfg_attr(kani, kani::unwind(11))]
 #[cfg_attr(kani, kani::stub(std::vec::Vec::resize, crate::stubs::vec_resize))]
 pub fn c10_pathbuf_push_n6() {
-    standalone_uri::<PUSH, 6, 2>()
+    standalone_uri::<PUSH, 6, 2, 10>()
 }
 
-// @h prop=C10,C04:thorough tier=quick kind=check timeout=2400 mem=16 bound="uri::PathBuf text <= 4 bytes" encodes="uri::PathBuf::pop;PathMutImpl::pop"
+// @h prop=C10,C04:thorough tier=quick kind=check timeout=2400 mem=12 bound="uri::PathBuf text <= 4 bytes" encodes="uri::PathBuf::pop;PathMutImpl::pop"
 #[cfg_attr(kani, kani::proof)]
-#[cfg_attr(kani, kani::unwind(9))]
+#[cfg_attr(kani, kani::unwind(8))]
 #[cfg_attr(kani, kani::stub(std::vec::Vec::resize, crate::stubs::vec_resize))]
 pub fn c10_pathbuf_pop_n4() {
-    standalone_uri::<POP, 4, 0>()
+    standalone_uri::<POP, 4, 0, 7>()
 }
 
 // @h prop=C10,C04 tier=thorough kind=check timeout=2400 mem=16 bound="uri::PathBuf text <= 5 bytes" encodes="uri::PathBuf::pop;PathMutImpl::pop"
 #[cfg_attr(kani, kani::proof)]
-#[cfg_attr(kani, kani::unwind(12))]
+#[cfg_attr(kani, kani::unwind(9))]
 #[cfg_attr(kani, kani::stub(std::vec::Vec::resize, crate::stubs::vec_resize))]
 pub fn c10_pathbuf_pop_n5() {
-    standalone_uri::<POP, 5, 0>()
+    standalone_uri::<POP, 5, 0, 8>()
 }
 
 // @h prop=C10,C04 tier=thorough kind=check timeout=2400 mem=16 bound="uri::PathBuf text <= 6 bytes" encodes="uri::PathBuf::pop;PathMutImpl::pop"
 #[cfg_attr(kani, kani::proof)]
-#[cfg_attr(kani, kani::unwind(13))]
+#[cfg_attr(kani, kani::unwind(10))]
 #[cfg_attr(kani, kani::stub(std::vec::Vec::resize, crate::stubs::vec_resize))]
 pub fn c10_pathbuf_pop_n6() {
-    standalone_uri::<POP, 6, 0>()
+    standalone_uri::<POP, 6, 0, 9>()
 }
 
 // @h prop=C10,C04 tier=thorough kind=check timeout=3000 mem=20 bound="uri::PathBuf text <= 6 bytes, segment <= 2 bytes" encodes="uri::PathBuf::symbolic_push"
 #[cfg_attr(kani, kani::proof)]
-#[cfg_attr(kani, kani::unwind(13))]
+#[cfg_attr(kani, kani::unwind(12))]
 #[cfg_attr(kani, kani::stub(std::vec::Vec::resize, crate::stubs::vec_resize))]
 pub fn c10_pathbuf_symbolic_push_n6() {
-    standalone_uri::<SYMBOLIC_PUSH, 6, 2>()
+    standalone_uri::<SYMBOLIC_PUSH, 6, 2, 11>()
 }
 
 // @h prop=C10,C04 tier=thorough kind=check timeout=3000 mem=20 bound="uri::PathBuf text <= 5 bytes, appended path <= 4 bytes" encodes="uri::PathBuf::symbolic_append"
@@ -370,15 +358,15 @@ pub fn c10_pathbuf_symbolic_push_n6() {
 #[cfg_attr(kani, kani::unwind(13))]
 #[cfg_attr(kani, kani::stub(std::vec::Vec::resize, crate::stubs::vec_resize))]
 pub fn c10_pathbuf_symbolic_append_n5() {
-    standalone_uri::<SYMBOLIC_APPEND, 5, 4>()
+    standalone_uri::<SYMBOLIC_APPEND, 5, 4, 12>()
 }
 
 // @h prop=C10,C04 tier=thorough kind=check timeout=3000 mem=20 bound="uri::PathBuf text <= 7 bytes" encodes="uri::PathBuf::clear"
 #[cfg_attr(kani, kani::proof)]
-#[cfg_attr(kani, kani::unwind(13))]
+#[cfg_attr(kani, kani::unwind(10))]
 #[cfg_attr(kani, kani::stub(std::vec::Vec::resize, crate::stubs::vec_resize))]
 pub fn c10_pathbuf_clear_n7() {
-    standalone_uri::<CLEAR, 7, 0>()
+    standalone_uri::<CLEAR, 7, 0, 8>()
 }
 
 /// Two edits through ONE handle with symbolic op choice (push / pop / clear)
